@@ -315,6 +315,69 @@ def match_known(f, entry):
         if k == "check_contains" and v not in (f.get("check") or ""): return False
     return True
 
+def unit_source_files(unit):
+    """repo files a unit takes its functions from (Verus unit: //@extract lines; Kani unit: `file`)"""
+    out = set()
+    t = os.path.join(ROOT, "vc", "units", unit + ".rs.tmpl")
+    if os.path.exists(t):
+        for l in open(t):
+            m = re.match(r"\s*//@extract\s+(\S+)\s*::", l)
+            if m: out.add(m.group(1))
+    k = os.path.join(ROOT, "kani", unit + ".toml")
+    if os.path.exists(k):
+        m = re.search(r'^file\s*=\s*"([^"]+)"', open(k).read(), re.M)
+        if m: out.add(m.group(1))
+    return out
+
+def dependency_violation(prop, pcfg, cfg, repo, changed):
+    """Assume/guarantee across properties.  The contracts that P's units ASSUME about the layers below (chunk codec, message
+    bodies, AMF0, timestamp arithmetic: trusted preludes / link axioms) are what the checks of the properties in
+    properties.<P>.depends_on PROVE on the real code.  On the unchanged tree those all pass.  When the tree differs from the
+    baseline in a file one of those checks draws its functions from, that check is run too (depth 1, never recursively);
+    if it reports a violation, P's assumption about that layer is no longer established and P is reported as violated, with
+    the dependency's failed obligation / witness attached.  An undecided dependency changes nothing."""
+    if os.environ.get("VERIF_DEP_DEPTH") or os.environ.get("VERIF_NO_TRIPWIRE"): return None
+    notes = []
+    for dep in pcfg.get("depends_on", []):
+        dc = cfg["properties"].get(dep)
+        if not dc: continue
+        files = set()
+        for u in dc.get("units", []) + dc.get("kani", []): files |= unit_source_files(u)
+        hit = sorted(set(changed) & files)
+        if not hit: continue
+        env = dict(os.environ, VERIF_DEP_DEPTH="1")
+        try:
+            p = subprocess.run([sys.executable, os.path.abspath(__file__), dep, "--repo", repo], capture_output=True, text=True, timeout=3000, env=env)
+        except subprocess.TimeoutExpired:
+            notes.append({"dependency": dep, "result": "timeout"}); continue
+        lines = [l for l in p.stdout.split("\n") if l.startswith(("VIOLATION", "FAILED-OBLIGATION", "WITNESS", "UNDECIDED", "KNOWN-FINDING", "OK "))]
+        notes.append({"dependency": dep, "changed_files_in_its_cone": hit, "exit": p.returncode, "lines": [l[:400] for l in lines[:12]]})
+        if p.returncode == 1:
+            vio = next((l for l in lines if l.startswith("VIOLATION")), "")
+            m = re.search(r"replay=(\S+)", vio)
+            dep_replay = None
+            try: dep_replay = json.load(open(m.group(1))) if m else None
+            except Exception: pass
+            return {"found": True, "dependency": dep, "changed_files": hit, "lines": lines[:12], "dependency_replay": dep_replay,
+                    "no_input": vio.rstrip().endswith("no-failing-input-found"), "tried": notes}
+    return {"found": False, "tried": notes}
+
+def report_dependency_violation(prop, dv, ev, evdir):
+    os.makedirs(os.path.join(ROOT, "replay", "out"), exist_ok=True)
+    rp = os.path.join(ROOT, "replay", "out", "%s-%d.json" % (prop, int(time.time())))
+    json.dump({"property": prop,
+               "failed_obligations": [{"unit": "link:" + dv["dependency"], "message": "assume/guarantee link: the contracts this property's units assume about a lower layer are proved by the check of %s, which reports a violation on this tree" % dv["dependency"],
+                                       "clause": " | ".join(dv["lines"])[:3000]}],
+               "changed_files": dv["changed_files"], "dependency": dv["dependency"], "dependency_replay": dv.get("dependency_replay"),
+               "witness": (dv.get("dependency_replay") or {}).get("witness")}, open(rp, "w"), indent=1)
+    ev["violations"] = 1; ev["coverage"]["replay_file"] = rp
+    ev["coverage"]["notes"] = ev["coverage"].get("notes", []) + ["violation reported through the assume/guarantee link to %s" % dv["dependency"]]
+    json.dump(ev, open(os.path.join(evdir, prop + ".json"), "w"), indent=1)
+    for l in dv["lines"]:
+        if l.startswith(("FAILED-OBLIGATION", "WITNESS")): print("LINK[%s] %s" % (dv["dependency"], l[:600]))
+    print("VIOLATION property=%s replay=%s%s" % (prop, rp, " no-failing-input-found" if dv.get("no_input") else ""))
+    sys.exit(1)
+
 def main():
     ap = argparse.ArgumentParser()
     ap.add_argument("prop")
@@ -355,7 +418,10 @@ def main():
         violations, masked, others, undecided = [], [], [], []
         for r in results:
             for f in r["failures"]:
-                if prop in (f.get("tags") or []) or not f.get("tags"):
+                # link obligations: clauses of a unit on the GUARANTEE side of an assume/guarantee link that this property's own
+                # units assume (config: properties.<P>.also_tags.<unit> = tags of the clauses the link mirrors) count for P too
+                ptags = set([prop]) | set((pcfg.get("also_tags") or {}).get(f.get("unit") or r["unit"], []))
+                if ptags & set(f.get("tags") or []) or not f.get("tags"):
                     hit = None
                     for e in known:
                         if e.get("status") == "known" and match_known(f, e): hit = e; break
@@ -505,6 +571,15 @@ def main():
                 json.dump(ev, open(os.path.join(evdir, prop + ".json"), "w"), indent=1)
                 print("VIOLATION property=%s replay=%s" % (prop, rp))
                 sys.exit(1)
+            try:
+                import update_baseline
+                base = json.load(open(os.path.join(ROOT, "vc", "baseline_tree.json")))["files"]
+                cur = update_baseline.tree_hashes(a.repo)
+                changed = sorted(k for k in set(base) | set(cur) if base.get(k) != cur.get(k))
+                dv = dependency_violation(prop, pcfg, cfg, a.repo, changed) if changed else None
+            except Exception as e:
+                dv = None
+            if dv and dv.get("found"): report_dependency_violation(prop, dv, ev, evdir)
             sys.exit(2)
         # Changed-tree tripwire.  Every obligation is discharged; if the library sources differ from the tree on which the
         # contracts were developed (vc/baseline_tree.json), the property's boundary-input enumeration is ALSO run on the real
@@ -530,6 +605,13 @@ def main():
                     json.dump(ev, open(os.path.join(evdir, prop + ".json"), "w"), indent=1)
                     print("VIOLATION property=%s replay=%s" % (prop, rp))
                     sys.exit(1)
+            if changed:
+                dv = dependency_violation(prop, pcfg, cfg, a.repo, changed)
+                if dv is not None:
+                    tripwire = dict(tripwire or {"changed_files": changed[:20]}, dependencies=dv.get("tried"))
+                if dv and dv.get("found"):
+                    ev["coverage"]["tripwire"] = tripwire
+                    report_dependency_violation(prop, dv, ev, evdir)
         except SystemExit:
             raise
         except Exception as e:
